@@ -66,7 +66,7 @@ CLAIMS["C16"] = (
 
 CLAIMS["C01"] = (
     "template verification of the meiosis kernel (store provenance, cursor tiling invariant) + abstract interpretation of the seven mate() "
-    "bodies in a cross-identity algebra (pedigree term, per-cross expansion sequences) compared with a pedigree table + keyword/def-use rules (ast)",
+    "bodies in a cross-identity algebra (pedigree term, per-cross expansion sequences) compared with a pedigree table + keyword/def-use rules + in-place update (may-alias) analysis of the arguments (ast)",
     "Decides Mendelian fidelity structurally for all inputs: every store into a gamete is geno[phase, s, same slice] of the selected parent; "
     "the cursor invariant shows each marker is written exactly once left to right and the source copy can change only at indices where "
     "rnd < xoprob (strict); mat_mate stacks (female, male) gametes from (fgeno,fsel)/(mgeno,msel) and mat_dh stacks one gamete twice; "
@@ -117,7 +117,7 @@ CLAIMS["C17"] = (
 
 CLAIMS["C06"] = (
     "keyword/source agreement of Solution assembly, path rule over the exchange scan (swap/evaluate/accept/undo pairing, truthful incumbent), "
-    "creation-without-replacement and mask rules for subset operators, view-vs-copy classification, def-use trace of the sorting pipeline (ast)",
+    "creation-without-replacement and mask rules for subset operators, view-vs-copy classification, def-use trace of the sorting pipeline, pymoo bridge hand-over rule (ast)",
     "Decides the structural part: all 16 optimisers assemble their Solution from the same-named problem attributes and from X/F/G/H or the "
     "incumbent tuple without cross-wiring; in both hill-climbers every scan path is swap / prob.evalfn(incumbent) / lexicographic (violation, score) "
     "acceptance / swap back, the applied exchange is the recorded (best_i, best_j) and the reported triple is the evaluation taken while it was in place, "
@@ -132,7 +132,7 @@ CLAIMS["C06"] = (
 
 CLAIMS["C09"] = (
     "spec congruence through an algebraic normal form + forward taint with function summaries (reciprocal-multiply values reaching comparisons "
-    "with 1) + dtype rule against int8 accumulation + structural rules for class counts and complement forms (ast)",
+    "with 1) + dtype rule against int8 accumulation + structural rules for class counts and complement forms + in-place update analysis with by-reference return summaries (ast)",
     "Decides: every statistic of both genotype classes (tafreq, acount, afreq, maf, meh, gtfreq, codings) normalises to its definition (so the phased "
     "and unphased forms agree by construction); gtcount counts exactly the ploidy+1 classes and writes every row; afixed/apoly are written in "
     "complementary forms; no value computed as (1/D)*N reaches a comparison with 1 anywhere in the genotype / genomic-model code (interprocedural, "
@@ -143,7 +143,7 @@ CLAIMS["C09"] = (
     "DESIGN.md §4 C09")
 CLAIMS["C10"] = (
     "spec congruence of the limit formulas and their mirror relation (algebraic normal form) + boundary-exactness taint + int8-accumulator rule + "
-    "closure lemmas from the meiosis template (ast)",
+    "in-place update analysis of the frequency routines + closure lemmas from the meiosis template (ast)",
     "Decides the formulas and the lemmas, not the history quantifier itself: usl_numpy / lsl_numpy normalise to ploidy*sum u*[u>0 ? p>0 : p>=1] and its "
     "mirror, add the same intercept, and receive p and ploidy from the matrix's own afreq()/ploidy; every comparison with 1 in that code receives an "
     "exactly computed frequency; frequencies are not accumulated in int8; and (from C01) every gamete entry is a copy of the selected parent's allele at "
@@ -177,8 +177,8 @@ CLAIMS["C15"] = (
 
 CLAIMS["C05"] = (
     "value numbering with an algebraic normal form and contribution canonicalisation: sibling congruence across the four decision encodings and spec "
-    "congruence with a reference term per criterion; structural rules for evalfn wiring, Cholesky factor, factory forwarding, chunk slice coupling and "
-    "loop-variant data (ast)",
+    "congruence with a reference term per criterion; structural rules for evalfn wiring, Cholesky factor, factory forwarding, chunk slice coupling, "
+    "loop-variant data and in-place update (may-alias) analysis of the decision vector (ast)",
     "Decides for all 56 non-simulating latentfn bodies (16 criterion families): after rewriting the subset form (1/len(x))*D[x].sum(k) and the weight form "
     "(x/sum(x)).D to one contrib(D,k) atom, every encoding equals the criterion's reference term (sign, data attribute, contracted axis, norm/abs wrapper, "
     "concatenation order) - hence the encodings agree with each other - and the decision vector occurs nowhere else (scale and order invariance by "
@@ -217,7 +217,7 @@ CLAIMS["C04"] = (
     "DESIGN.md §4 C04")
 
 CLAIMS["C07"] = (
-    "wiring rules: decision provenance in select(), keyword forwarding, sampling-pipeline sequence per configuration class, index-generator structure, plus the "
+    "wiring rules: decision provenance in select(), keyword forwarding (select and constructors), sampling-pipeline sequence per configuration class, index-generator structure, plus the "
     "exchange-search path rule shared with C17 (ast)",
     "Decides the wiring, not the optimisation: in all eight selection protocols the configuration is built from the solver's own decision (soln_decn[0], or "
     "soln_decn[argmax(ndset_wt * ndset_trans(front objectives, **kwargs))] of the same solution object), with ncross/nparent/nmating/nprogeny and the population "
